@@ -442,3 +442,220 @@ func isConstBoolValue(v ssa.Value, want bool) bool {
 	c, ok := v.(*ssa.Const)
 	return ok && isConstBool(c, want)
 }
+
+// ---------- OPTS-1 ----------
+
+func init() {
+	register(&Rule{
+		ID: "OPTS-1",
+		Doc: "options reach the parameters unchanged: in every exported option constructor of package autog (a function returning Option whose result is a closure over *options) each store into a field of the options / parameter record is unconditional, " +
+			"and what is stored is the constructor's own argument (captured), a constant, or a function literal; a guard such as `if spacing > 0` silently replaces a legal value (0 is a legal spacing) by the default",
+		Floor: 8,
+		Ctl:   []string{"ROOT__opts1.go.txt"},
+		Run:   runOpts1,
+	})
+}
+
+func runOpts1(m *Model, r *RuleResult) {
+	for _, f := range m.Src {
+		if pkgPathOf(f) != modPath || f.Parent() != nil || f.Object() == nil || !f.Object().Exported() {
+			continue
+		}
+		res := f.Signature.Results()
+		if res.Len() != 1 || namedKey(res.At(0).Type()) != "autog.Option" {
+			continue
+		}
+		ctl := m.FuncIsPosctl(f)
+		key := "option:" + funcKey(f)
+		// the returned closure
+		var cl *ssa.Function
+		eachInstr(f, func(in ssa.Instruction) {
+			if ret, ok := in.(*ssa.Return); ok && len(ret.Results) == 1 {
+				v := ret.Results[0]
+				if ct, ok := v.(*ssa.ChangeType); ok {
+					v = ct.X
+				}
+				switch x := v.(type) {
+				case *ssa.MakeClosure:
+					cl, _ = x.Fn.(*ssa.Function)
+				case *ssa.Function:
+					cl = x
+				}
+			}
+		})
+		if cl == nil {
+			r.add(Obligation{Key: key, Pos: m.Pos(f.Pos()), Desc: "option constructor", Verdict: "undecided", Detail: "the result is not a function literal", Control: ctl})
+			continue
+		}
+		var bad []string
+		n := 0
+		eachInstr(cl, func(in ssa.Instruction) {
+			st, ok := in.(*ssa.Store)
+			if !ok {
+				return
+			}
+			fa, ok := st.Addr.(*ssa.FieldAddr)
+			if !ok {
+				return
+			}
+			_, steps := fieldChain(fa)
+			loc := locOfSteps(steps)
+			if !strings.HasPrefix(loc, "autog.options.") && !strings.HasPrefix(loc, igPar+".") {
+				return
+			}
+			n++
+			if deps := transitiveControlDeps(st.Block()); len(deps) > 0 {
+				bad = append(bad, fmt.Sprintf("the store into %s at %s happens only under %s", strings.TrimPrefix(loc, "autog.options."), m.Pos(st.Pos()), deps[0].If.Cond.String()))
+			}
+			v := st.Val
+			if ct, ok := v.(*ssa.ChangeType); ok {
+				v = ct.X
+			}
+			switch x := v.(type) {
+			case *ssa.Const, *ssa.MakeClosure, *ssa.Function:
+			case *ssa.FreeVar:
+			case *ssa.UnOp:
+				if _, isFV := x.X.(*ssa.FreeVar); !isFV || x.Op != token.MUL {
+					bad = append(bad, "the value stored into "+loc+" at "+m.Pos(st.Pos())+" is not the constructor's argument")
+				}
+			default:
+				bad = append(bad, "the value stored into "+loc+" at "+m.Pos(st.Pos())+" is computed ("+v.String()+"), not the constructor's argument")
+			}
+		})
+		switch {
+		case n == 0:
+			r.add(Obligation{Key: key, Pos: m.Pos(f.Pos()), Desc: "option constructor must set a field of the options record", Verdict: "violation", Detail: "no store into the options / parameter record: the option has no effect", Control: ctl})
+		case len(bad) > 0:
+			r.add(Obligation{Key: key, Pos: m.Pos(f.Pos()), Desc: "an option must hand its argument to the parameters unchanged and unconditionally", Verdict: "violation",
+				Detail: strings.Join(bad, "; ") + ": a legal value is silently replaced by the default", Control: ctl})
+		default:
+			r.add(Obligation{Key: key, Pos: m.Pos(f.Pos()), Desc: fmt.Sprintf("stores its argument (or a constant / function literal) into the record unconditionally (%d store(s))", n), Verdict: "holds", Control: ctl})
+		}
+	}
+}
+
+// ---------- DISP-1 ----------
+
+func init() {
+	register(&Rule{
+		ID: "DISP-1",
+		Doc: "the algorithm that runs is the one the option names: in every Process method of the five phase packages, which dispatch target is called - a function of the package taking the graph that is called under a comparison of the receiver with an algorithm constant - depends on nothing but such comparisons; " +
+			"any other condition on the way to a target must be an early-exit guard (its other branch reaches no target). A size-gated fallback (`if len(g.Nodes) > 512 { greedy } else { depth-first }`) silently replaces the documented algorithm and its guarantees",
+		Floor: 10,
+		Ctl:   []string{"internal__phase1__disp1.go.txt"},
+		Run:   runDisp1,
+	})
+}
+
+func runDisp1(m *Model, r *RuleResult) {
+	for _, f := range m.Src {
+		sp := shortPkg(pkgPathOf(f))
+		if !strings.HasPrefix(sp, "internal/phase") || f.Parent() != nil {
+			continue
+		}
+		isProc := f.Name() == "Process" && f.Signature.Recv() != nil
+		ctl := m.FuncIsPosctl(f)
+		if ctl && !strings.Contains(f.Name(), "Disp1") {
+			continue
+		}
+		if !isProc && !ctl {
+			continue
+		}
+		if len(f.Params) == 0 {
+			continue
+		}
+		recv := ssa.Value(f.Params[0])
+		isAlgTest := func(c ssa.Value) bool {
+			bo, ok := c.(*ssa.BinOp)
+			if !ok || (bo.Op != token.EQL && bo.Op != token.NEQ) {
+				return false
+			}
+			strip := func(v ssa.Value) ssa.Value {
+				for {
+					switch x := v.(type) {
+					case *ssa.ChangeType:
+						v = x.X
+						continue
+					case *ssa.Convert:
+						v = x.X
+						continue
+					}
+					return v
+				}
+			}
+			_, c1 := bo.Y.(*ssa.Const)
+			_, c0 := bo.X.(*ssa.Const)
+			return (strip(bo.X) == recv && c1) || (strip(bo.Y) == recv && c0)
+		}
+		// dispatch targets: same-package static callees taking the graph, called under an algorithm test
+		type site struct {
+			in  ssa.CallInstruction
+			fn  *ssa.Function
+			dep []ctrlDep
+		}
+		var sites []site
+		eachInstr(f, func(in ssa.Instruction) {
+			ci, ok := in.(ssa.CallInstruction)
+			if !ok {
+				return
+			}
+			c := ci.Common().StaticCallee()
+			if c == nil || pkgPathOf(c) != pkgPathOf(f) || len(c.Params) == 0 || namedKey(c.Params[0].Type()) != igDG {
+				return
+			}
+			deps := transitiveControlDeps(in.Block())
+			under := false
+			for _, d := range deps {
+				if isAlgTest(d.If.Cond) {
+					under = true
+				}
+			}
+			if under {
+				sites = append(sites, site{ci, c, deps})
+			}
+		})
+		isTargetBlock := map[*ssa.BasicBlock]bool{}
+		for _, s := range sites {
+			isTargetBlock[s.in.Block()] = true
+		}
+		reachesTarget := func(b *ssa.BasicBlock) bool {
+			if isTargetBlock[b] {
+				return true
+			}
+			for x := range blocksReachableFrom(b) {
+				if isTargetBlock[x] {
+					return true
+				}
+			}
+			return false
+		}
+		for _, s := range sites {
+			key := "dispatch:" + funcKey(f) + "->" + s.fn.Name()
+			var bad []string
+			for _, d := range s.dep {
+				if isAlgTest(d.If.Cond) {
+					continue
+				}
+				other := d.If.Block().Succs[1-d.Branch]
+				if reachesTarget(other) {
+					bad = append(bad, d.If.Cond.String()+" at "+m.Pos(d.If.Cond.Pos()))
+				}
+			}
+			dup := false
+			for _, o := range r.Obligations {
+				if o.Key == key {
+					dup = true
+				}
+			}
+			if dup && len(bad) == 0 {
+				continue
+			}
+			if len(bad) == 0 {
+				r.add(Obligation{Key: key, Pos: m.Pos(s.in.Pos()), Desc: "called under the algorithm constant alone (other conditions on the way are early exits)", Verdict: "holds", Control: ctl})
+			} else {
+				r.add(Obligation{Key: key, Pos: m.Pos(s.in.Pos()), Desc: "which algorithm runs must depend on the option alone", Verdict: "violation",
+					Detail: "whether " + s.fn.Name() + " or another algorithm runs also depends on " + strings.Join(uniq(bad), "; ") + ": the caller silently gets a different algorithm than the one selected, without its guarantees", Control: ctl})
+			}
+		}
+	}
+}
